@@ -197,6 +197,7 @@ package period
 //@ let m = matches(weekPattern, yyyyWww)
 //@ let y = num(yyyyWww[0:4])
 //@ let w = num(yyyyWww[6:len(yyyyWww)])
+//@ use weekOfYear(y, w)
 //@ ensures (result1 == nil) == (m && 1 <= w && w <= klog.isoweek(dn(y, 12, 28)))
 //@ ensures implies(result1 == nil, isdate(result0.date) && klog.isoweek(klog.ddn(result0.date)) == w && klog.isoyear(klog.ddn(result0.date)) == y && wk(klog.ddn(result0.date)) == 0)
 
@@ -204,3 +205,33 @@ package period
 //@ inline
 //@ loop 1 invariant isdate(ref) && klog.ddn(ref) <= dn(year, 7, 1) && dn(year, 7, 1) - klog.ddn(ref) <= 6 && wk(klog.ddn(ref)) == wk(dn(year, 7, 1)) - (dn(year, 7, 1) - klog.ddn(ref))
 //@ loop 1 decreases wk(klog.ddn(ref))
+
+// ISO week arithmetic, in small steps (each lemma is discharged on its own; `use` makes proved instances available).
+// thu(n): the Thursday of the week of day n. The ISO year of n is the calendar year of thu(n).
+//@ spec thu(n int) int = n - wk(n) + 3
+
+// 1 July and 28 December lie in weeks whose Thursday is in the same calendar year.
+//@ lemma isoYearMid(y int)
+//@ requires 0 <= y && y <= 9999
+//@ ensures dby(y) <= thu(dn(y, 7, 1)) && thu(dn(y, 7, 1)) < dby(y + 1)
+//@ ensures dby(y) <= thu(dn(y, 12, 28)) && thu(dn(y, 12, 28)) < dby(y + 1)
+
+// A Thursday t of calendar year y belongs to ISO year y, and its week number is determined by its distance from
+// 1 January.
+//@ lemma isoOfThursday(y int, t int)
+//@ requires 0 <= y && y <= 9999 && wk(t) == 3 && dby(y) <= t && t < dby(y + 1)
+//@ ensures klog.isoyear(t - 3) == y && klog.isoweek(t - 3) == ediv(t - dby(y), 7) + 1
+
+// The Mondays of ISO year y: starting from the Monday on or before 1 July and moving by whole weeks, week number w
+// (1 <= w <= the week number of 28 December) is reached at a representable date, which is a Monday of ISO year y.
+//@ lemma weekOfYear(y int, w int)
+//@ requires 0 <= y && y <= 9999 && 1 <= w && w <= klog.isoweek(dn(y, 12, 28))
+//@ let M = dn(y, 7, 1) - wk(dn(y, 7, 1))
+//@ let D = dn(y, 12, 28) - wk(dn(y, 12, 28))
+//@ let T = M + 7 * (w - klog.isoweek(M))
+//@ use isoYearMid(y)
+//@ use isoOfThursday(y, M + 3)
+//@ use isoOfThursday(y, D + 3)
+//@ use isoOfThursday(y, T + 3)
+//@ ensures 0 <= T && T <= 3652424
+//@ ensures klog.isoweek(T) == w && klog.isoyear(T) == y && wk(T) == 0
